@@ -943,7 +943,8 @@ impl<'a> Writer<'a> {
 
         if let Some(ref edns) = self.edns {
             let class = Class::from(edns.udp_payload_size);
-            let ttl = Ttl::from((edns.extended_rcode_upper_bits as u32) << 24);
+            let ttl =
+                Ttl::from_raw_pseudo_rr_field((edns.extended_rcode_upper_bits as u32) << 24);
             self.available += OPT_RECORD_SIZE;
             self.add_rr(
                 HintedName::new(Hint::None, Name::root()),
